@@ -128,6 +128,14 @@ func C05(r *h.Run) {
 				msgs = nil
 			}
 		}
+		sendFailsAt := -1
+		if retErr == nil && len(msgs) > 0 && rng.Intn(6) == 0 {
+			// a response message the codec refuses to marshal: Send fails before anything of
+			// that message is written, and the call ends with code internal
+			sendFailsAt = rng.Intn(len(msgs))
+			msgs[sendFailsAt] = []byte{0xEE, 0xEE, 0xEE}
+			final = int(connect.CodeInternal)
+		}
 		resH, resT := genMeta(rng, "X-Res"), genMeta(rng, "X-Trl")
 		hopts := append(cfg.handlerOpts(), connect.WithCompressMinBytes(minBytes))
 		var handler *connect.Handler
@@ -179,6 +187,9 @@ func C05(r *h.Run) {
 		raw := rec.Body.Bytes()
 		kind, js := "WGrpc", "JNoError"
 		wantMsgs := msgs
+		if sendFailsAt >= 0 {
+			wantMsgs = msgs[:sendFailsAt]
+		}
 		finalCoq := fmt.Sprint(final)
 		switch {
 		case proto == "connect" && unary:
@@ -205,7 +216,7 @@ func C05(r *h.Run) {
 		if accept != "" {
 			tag = fmt.Sprintf("(Some x%02x)", h.TagByte(accept))
 		}
-		in := map[string]any{"proto": proto, "unary": unary, "accept": accept, "min_bytes": minBytes, "messages": hexList(msgs), "error_code": final}
+		in := map[string]any{"proto": proto, "unary": unary, "accept": accept, "min_bytes": minBytes, "messages": hexList(msgs), "error_code": final, "send_fails_at_message": sendFailsAt}
 		r.Eval("handler_response", fmt.Sprint(i))
 		r.Sample("handler_response", map[string]any{"in": in, "status": rec.Code, "header": hdr, "trailer": trailer, "body_hex": h.Hex(raw)})
 		r.Case("handler_response", fmt.Sprintf("SpecResp %s %s %s %d %s %s %s %s %s %s", kind, h.CoqStr(reqCT), tag, rec.Code, coqHeaderAll(hdr, ""), coqHeaderAll(trailer, ""), h.CoqBytes(raw), js, h.CoqBytesList(wantMsgs), finalCoq),
@@ -493,6 +504,84 @@ func C05(r *h.Run) {
 			}
 		} else {
 			checkError(r, "peer_vector", in, cerr, code, msg, nil, meta)
+		}
+	}
+	c05UnaryVectors(r, rng.Fork("unary-vectors"))
+}
+
+// c05UnaryVectors: unary Connect responses as a conformant peer writes them — the message (or
+// the JSON error under the code's HTTP status) as the whole body, compressed when
+// Content-Encoding says so, metadata as headers and Trailer- prefixed headers — are validated
+// by the Coq spec reader and must be decoded by a real client to the same values.
+func c05UnaryVectors(r *h.Run, rng *h.Rng) {
+	httpOf := map[connect.Code]int{1: 408, 2: 500, 3: 400, 4: 408, 5: 404, 6: 409, 7: 403, 8: 429, 9: 412, 10: 409, 11: 400, 12: 404, 13: 500, 14: 503, 15: 500, 16: 401}
+	for i := 0; i < r.N(90, 900); i++ {
+		withAlg := i%2 == 0
+		code := connect.Code(0)
+		msg := ""
+		if i%3 != 0 {
+			code = connect.Code(1 + rng.Intn(16))
+			msg = errMessages[1+rng.Intn(len(errMessages)-2)]
+		}
+		payload := genPayload(rng, []int{0, 1, 3, 9, 40}[rng.Intn(5)])
+		hdr := http.Header{"X-Peer-Meta": {"v1", "v2"}, "Trailer-X-Peer-Trl": {"t1"}}
+		status := 200
+		plain := payload
+		js := "JNoError"
+		if code != 0 {
+			status = httpOf[code]
+			hdr.Set("Content-Type", "application/json")
+			plain, _ = json.Marshal(map[string]any{"code": code.String(), "message": msg})
+			js = jsumOf(plain, false)
+		} else {
+			hdr.Set("Content-Type", "application/toy")
+		}
+		body := plain
+		if withAlg {
+			hdr.Set("Content-Encoding", "tagA")
+			body = compressToy("tagA", plain)
+		}
+		in := map[string]any{"proto": "connect", "kind": "unary", "status": status, "header": hdr, "body_hex": h.Hex(body), "code": uint32(code), "message": msg, "message_payload": h.Hex(payload)}
+		r.Eval("peer_vector_unary", fmt.Sprint(i))
+		if code != 0 || !withAlg { // (a compressed success body is opaque to the spec reader)
+			want := "[]"
+			if code == 0 {
+				want = h.CoqBytesList([][]byte{payload})
+			}
+			r.Case("peer_vector_unary", fmt.Sprintf("SpecResp WConnectUnary %s None %d %s %s %s %s %s %d", h.CoqStr("application/toy"), status, coqHeaderAll(canonHeader(hdr), ""), coqHeaderAll(http.Header{}, ""), h.CoqBytes(body), js, want, uint32(code)),
+				map[string]any{"vector": in})
+		}
+		var got []byte
+		var cerr error
+		var resHeader, resTrailer http.Header
+		canned := &h.CannedClient{Build: func(*http.Request) (*http.Response, error) {
+			return h.NewResponse(status, canonHeader(hdr), h.NewChunkBody([][]byte{body}, h.FinCleanEOF), nil), nil
+		}}
+		p := safely(func() {
+			cl := connect.NewClient[h.Raw, h.Raw](canned, "http://verif.local/verif.Svc/M", clientOpts(envCfg{Proto: "connect"}, "")...)
+			resp, err := cl.CallUnary(context.Background(), connect.NewRequest(&h.Raw{B: []byte("q")}))
+			if err != nil {
+				cerr = err
+				return
+			}
+			got, resHeader, resTrailer = resp.Msg.B, resp.Header(), resp.Trailer()
+		})
+		if p != nil {
+			r.Fail(h.Failure{Key: "conformance/panic", Family: "peer_vector_unary", What: fmt.Sprint("panic: ", p), Input: in})
+			continue
+		}
+		r.Sample("peer_vector_unary", map[string]any{"vector": in, "decoded": h.Hex(got), "error": fmt.Sprint(cerr)})
+		if code == 0 {
+			switch {
+			case cerr != nil:
+				r.Fail(h.Failure{Key: "conformance/peer-success-rejected", Family: "peer_vector_unary", What: "a conformant successful response is reported as an error", Input: in, Actual: cerr.Error()})
+			case !bytes.Equal(got, payload):
+				r.Fail(h.Failure{Key: "conformance/peer-messages", Family: "peer_vector_unary", What: "a conformant response is not decoded to the message the peer encoded", Input: in, Expected: h.Hex(payload), Actual: h.Hex(got)})
+			case !sublist([]string{"v1", "v2"}, resHeader.Values("X-Peer-Meta")) || !sublist([]string{"t1"}, resTrailer.Values("X-Peer-Trl")):
+				r.Fail(h.Failure{Key: "conformance/peer-metadata", Family: "peer_vector_unary", What: "metadata of a conformant response is not visible", Input: in, Actual: map[string]any{"header": resHeader, "trailer": resTrailer}})
+			}
+		} else {
+			checkError(r, "peer_vector_unary", in, cerr, code, msg, nil, http.Header{"X-Peer-Meta": {"v1", "v2"}})
 		}
 	}
 }
